@@ -45,6 +45,12 @@ def rule_state_type(rep, crate):
     if guard is None:
         rep.viol(rid, 'state-type:guard', 'no `matching_prio_leaves.len() > 1` test guards the Err return', loc(fn))
         return
+    # the tie test itself must not be conditional on anything but "the state matches at all"
+    from mirlib import controlling_switches
+    for sb in controlling_switches(fn, guard['bb']):
+        r = trace(fn, fn.blocks[sb]['term']['discr'])
+        if r[0] in ('bin', 'un') or (r[0] == 'call' and not re.search(r'max_by_key$', fn.callee_name(r[2]))):
+            rep.viol(rid, 'state-type:extra-condition', 'the equal-priority test is only evaluated under an additional condition (%s): some ties are resolved silently' % desc(fn, fn.blocks[sb]['term']['discr'])[:120], loc(fn, fn.blocks[sb]['term']['line']))
     if not fn.edge_dominates((guard['bb'], guard['t']), eb):
         rep.viol(rid, 'state-type:err-edge', 'Err is returned outside the `more than one leaf at the top priority` edge', loc(fn, ex['line']))
     for ob, ox in oks:
@@ -191,5 +197,7 @@ def run(ctx, rep):
     c19.rule_gate(rep, crate)
     from props import cg
     cg.cg_controls(rep, ctx, [('M-C08a', rule_no_conflict_dropped)])
+    from props import gen
+    gen.rule_must_reject(ctx, rep, gen.configs(ctx), ['equal_priority'], floor=8)
     rep.trusted += ['rustc nightly MIR', 'engines/mirfacts', 'regex-automata: match_pattern enumerates all patterns matching in a state (MatchKind::All)']
     rep.assumptions += ['detection coincides with language intersection only modulo C01 (not claimed)']
